@@ -561,6 +561,12 @@ func randomDataOp(r *rand.Rand, pid uint16, auto bool, slot int, o HistOpts) HOp
 	if oh := h.OptionalHeader; o.OddPrivateData && oh != nil && oh.HasExtension && oh.HasPrivateData && r.IntN(2) == 0 {
 		oh.PrivateData = gen.Bytes(r, []int{0, 1, 15, 17, 20, 40, 200}[r.IntN(7)])
 	}
+	if oh := h.OptionalHeader; o.OddPrivateData && oh != nil && r.IntN(6) == 0 {
+		// PTS_DTS_flags is a two bit field kept in a uint8: bits above it (a caller that ORs flags together, a value copied from
+		// a wider field) are cut off when it is written, like the bits above any other field - and what follows the flags goes by
+		// the two bits that are written
+		oh.PTSDTSIndicator |= uint8(4 << uint(r.IntN(6)))
+	}
 	shared := 0
 	if o.ReuseAF && r.IntN(2) == 0 {
 		// a small adaptation field object (PCR / flags) kept by the caller for this PID and passed again and again
